@@ -105,14 +105,19 @@ SeqSet(q) == {q[i] : i \in 1..Len(q)}
    floating point (0.3/0.1, 2.1/0.7, ...): mathematically the limit IS the integer n, numerically it lands a rounding
    error below / above n.  Two readings are allowed for such a limit, and only these: it is the integer n (exact
    reading), or it is refused as "not an integer" (strict reading, a floating-point artefact).  Taking it for a
-   neighbouring integer is neither. *)
+   neighbouring integer is neither.
+   creal: the integer n written so that it is computed in the complex numbers with an imaginary part that cancels exactly
+   (i^2+2, 3+0*i, (1+i)*(1-i)+1, 3*i/i).  Mathematically the limit IS the integer n; the same two readings are allowed:
+   it is the integer n, or it is refused as "complex" (strict reading, an artefact of the number type) -- with the
+   error class the statement gives for a complex limit. *)
 InexactKinds == {"qbelow", "qabove"}
+ArtefactKinds == InexactKinds \cup {"creal"}
 LimVal(l, env, role) ==
   CASE l.k = "int" -> [t |-> "int", v |-> l.n]
     [] l.k = "plusx" -> (LET q == QAdd(env.x, QInt(l.n)) IN IF q[2] = 1 THEN [t |-> "int", v |-> q[1]] ELSE [t |-> "nonint"])
     [] l.k = "plusc" -> (IF role = "student" THEN [t |-> "ivar"]
                          ELSE LET q == QAdd(env.c, QInt(l.n)) IN IF q[2] = 1 THEN [t |-> "int", v |-> q[1]] ELSE [t |-> "nonint"])
-    [] l.k \in InexactKinds \cup {"fn"} -> [t |-> "int", v |-> l.n]
+    [] l.k \in ArtefactKinds \cup {"fn"} -> [t |-> "int", v |-> l.n]
     [] l.k = "half" -> [t |-> "nonint"]
     [] l.k = "cplx" -> [t |-> "complex"]
     [] l.k = "pinf" -> [t |-> "pinf"]
@@ -134,10 +139,12 @@ SumOf(body, idx, env) == FoldSet(LAMBDA m, acc : VAdd(acc, BodyAt(body, m, env))
    cfg  [evenOdd, cut, cutFact, xs (samples of x), cval (value of c at every sample), vars, ivars, tol,
          userfuncs (names of author-defined functions), forbidden (functions a submission may not use: a blacklist, or
          the complement of a whitelist), required (functions a correct submission must use), listing (how forbidden is
-         configured, "black" | "white": no influence on the outcome)]
+         configured, "black" | "white") and debug (the grader's debug switch): the last two have no influence on the
+         class of the outcome]
    role "author" | "student": the instructor-only variables exist for the author only *)
 HasInexact(sum) == sum.lower.k \in InexactKinds \/ sum.upper.k \in InexactKinds
-Readings(sum) == IF HasInexact(sum) THEN {FALSE, TRUE} ELSE {FALSE}          \* strict?
+HasComplexReal(sum) == sum.lower.k = "creal" \/ sum.upper.k = "creal"
+Readings(sum) == IF HasInexact(sum) \/ HasComplexReal(sum) THEN {FALSE, TRUE} ELSE {FALSE}          \* strict?
 \* the functions a summation uses: those called in its two limits and in its summand -- of THIS summation, nothing else
 LimFuncs(l) == IF l.k = "fn" THEN {l.f} ELSE {}
 UsedFuncs(sum) == LimFuncs(sum.lower) \cup LimFuncs(sum.upper)
@@ -152,11 +159,11 @@ Faults(sum, cfg, env, role, strict) ==
   LET lo == LimVal(sum.lower, env, role)
       hi == LimVal(sum.upper, env, role)
       b == sum.body
-      meaning == KnownConstants \cup KnownFunctions \cup cfg.vars \cup (IF role = "author" THEN cfg.ivars ELSE {})
+      meaning == KnownConstants \cup KnownFunctions \cup cfg.userfuncs \cup cfg.vars \cup (IF role = "author" THEN cfg.ivars ELSE {})
   IN IfSet(lo.t = "blank" \/ hi.t = "blank" \/ b.blank \/ sum.var = "", "blank")
      \cup IfSet(sum.var \in meaning, "variable_has_meaning")
      \cup IfSet(lo.t = "nonint" \/ hi.t = "nonint" \/ (strict /\ HasInexact(sum)), "noninteger_limit")
-     \cup IfSet(lo.t = "complex" \/ hi.t = "complex", "complex_limit")
+     \cup IfSet(lo.t = "complex" \/ hi.t = "complex" \/ (strict /\ HasComplexReal(sum)), "complex_limit")
      \cup IfSet(lo.t = "ivar" \/ hi.t = "ivar" \/ (~b.blank /\ role = "student" /\ UsesC(b)), "instructor_variable")
      \cup IfSet(~b.blank /\ UsesIndex(b) /\ b.v # sum.var, "unknown_variable")
      \cup IfSet(~(UsedFuncs(sum) \subseteq DefinedFuncs(cfg)), "unknown_function")
@@ -173,7 +180,7 @@ Unspecified(sum, cfg, env, role) ==
      \/ lo.t \in {"pinf", "ninf"} /\ hi.t = lo.t
      \/ lo.t = "int" /\ hi.t \in {"pinf", "ninf"} /\ Abs(lo.v) > cut
      \/ hi.t = "int" /\ lo.t \in {"pinf", "ninf"} /\ Abs(hi.v) > cut
-     \/ ~b.blank /\ UsesIndex(b) /\ b.v # sum.var /\ b.v \in KnownConstants \cup KnownFunctions \cup cfg.vars \cup cfg.ivars
+     \/ ~b.blank /\ UsesIndex(b) /\ b.v # sum.var /\ b.v \in KnownConstants \cup KnownFunctions \cup cfg.userfuncs \cup cfg.vars \cup cfg.ivars
      \* a summand that is never evaluated: nothing is said about names it cannot use
      \/ ~b.blank /\ IsRange(lo) /\ IsRange(hi) /\ Index(lo, hi, cfg.evenOdd, cut) = {}
           /\ ((UsesIndex(b) /\ b.v # sum.var) \/ (role = "student" /\ UsesC(b)) \/ ~(SeqSet(b.calls) \subseteq DefinedFuncs(cfg)))
@@ -240,7 +247,7 @@ Grade(aut, stu, cfg) ==
   UNION {Verdict(Outcomes(aut, cfg, "author", ra, 1), Outcomes(stu, cfg, "student", rs, 1), cfg, Dim(aut.body), Restricted(stu, cfg)) :
            ra \in Readings(aut), rs \in Readings(stu)}
 \* the same summation with its inexactly written limits written as plain integers
-ExactLim(l) == IF l.k \in InexactKinds THEN [l EXCEPT !.k = "int"] ELSE l
+ExactLim(l) == IF l.k \in ArtefactKinds THEN [l EXCEPT !.k = "int"] ELSE l
 Exactly(sum) == [sum EXCEPT !.lower = ExactLim(sum.lower), !.upper = ExactLim(sum.upper)]
 
 (* ------------------------------------------------------------------ which boxes the student fills in
